@@ -2,7 +2,9 @@ package rv
 
 import (
 	"go/constant"
+	"go/token"
 	"go/types"
+	"strings"
 
 	"golang.org/x/tools/go/ssa"
 )
@@ -228,4 +230,35 @@ func paramArgs(p *Prog, v ssa.Value) (vals []ssa.Value, sites []Site, ok bool) {
 		sites = append(sites, c)
 	}
 	return vals, sites, true
+}
+
+// paramOnlyRead: fn is a function with a body whose k-th parameter (a pointer) is used only as the
+// operand of loads and as the receiver/argument of Load/RLock-style calls (never stored through,
+// never passed on, never stored anywhere).
+func paramOnlyRead(fn *ssa.Function, k int) bool {
+	if fn == nil || fn.Blocks == nil || k < 0 || k >= len(fn.Params) {
+		return false
+	}
+	prm := fn.Params[k]
+	refs := prm.Referrers()
+	if refs == nil {
+		return false
+	}
+	for _, ref := range *refs {
+		switch x := ref.(type) {
+		case *ssa.UnOp:
+			if x.Op != token.MUL {
+				return false
+			}
+		case ssa.CallInstruction:
+			n := CalleeName(x)
+			if !(strings.Contains(n, ".Load") || strings.HasSuffix(n, "RLock") || strings.HasSuffix(n, "RUnlock")) {
+				return false
+			}
+		case *ssa.DebugRef:
+		default:
+			return false
+		}
+	}
+	return true
 }
